@@ -1,6 +1,7 @@
 #!/bin/bash
 # Runs every claimed check on every kept behaviour-preserving refactoring; any rc != 0 is a false alarm (1) or an analysis error (2).
 set -u
+export VERIF_NPROC=${VERIF_NPROC:-2}   # the matrix already runs 14 jobs side by side
 cd /verif
 IDS=$(/venv/bin/python -c "import json;print(' '.join(c['property_id'] for c in json.load(open('MANIFEST.json'))['checks']))")
 OUT=$(mktemp -d /tmp/benmatrix.XXXXXX)
